@@ -102,10 +102,11 @@ unsigned int XMLSynchronizedStringPool::getId(const XMLCh* const toFind) const
     if(retVal)
         return retVal;
 
-    // make sure we return a truly unique id
+    // make sure we return a truly unique id, and 0 for an unknown string
     unsigned int constCount = fConstPool->getStringCount();
     XMLMutexLock lockInit(&const_cast<XMLSynchronizedStringPool*>(this)->fMutex);
-    return XMLStringPool::getId(toFind)+constCount;
+    retVal = XMLStringPool::getId(toFind);
+    return retVal ? retVal + constCount : 0;
 }
 
 
